@@ -34,6 +34,11 @@ def run(ctx, db, tier):
     has_value_agrees(ctx, db)
     from . import C02
     C02.resolve_one_rmw(ctx, db, 'C01.resolve-one-rmw')
+    # a refused late subscriber must stay reusable: an awaiter left pointing at the ready marker would, on its next subscription, swap the marker
+    # out of an already resolved future (the result "changes afterwards": ready() flips back to false)
+    C02.subscribe_protocol(ctx, db, 'C01.refusal-keeps-result-final')
+    atomic.check_roles(ctx, db, 'C01.result-visible-to-pollers', only_functions=C02.RESULT_VISIBILITY_FUNCTIONS, floor=8)
+    result_immutable(ctx, db)
     shared.claimed_promise(ctx, db, 'C01.lost-claim-starts-nothing')
     if ctx.cfg == 'assert':
         witness.positive(ctx, 'C01.types', 'C01_pos.cpp', 'promise<T> is move-only, future<T> is neither copyable nor movable (static_assert witnesses over the value-type matrix)')
@@ -66,9 +71,9 @@ def _is_drop(f):
     return any('DropTag' in p['type'] for p in f['params'])
 
 
-def resolvers(ctx, db):
-    r1 = ctx.rule('C01.set-then-resolve', 'ORDER+COUNT', 'every resolver: on the winner edge of the claim, set at most once, resolve exactly once, set before resolve; on the loser edge neither (leaves no trace)', floor=4)
-    r2 = ctx.rule('C01.verdict', 'COUNT', 'the bool carried by the returned suspend_point<bool> is constant true on every winner path and constant false on every loser path', floor=2)
+def resolvers(ctx, db, rid1='C01.set-then-resolve', rid2='C01.verdict'):
+    r1 = ctx.rule(rid1, 'ORDER+COUNT', 'every resolver: on the winner edge of the claim, set at most once, resolve exactly once, set before resolve; on the loser edge neither (leaves no trace)', floor=4)
+    r2 = ctx.rule(rid2, 'COUNT', 'the bool carried by the returned suspend_point<bool> is constant true on every winner path and constant false on every loser path', floor=2)
     inl = inline_only(CLAIM, 'cocls::promise::set_value', 'cocls::promise::set', 'cocls::promise::resolve', 'cocls::promise::operator()')
     for root in ('cocls::promise::set_value', 'cocls::promise::set_exception', 'cocls::promise::operator()', 'cocls::promise::unhandled_exception'):
         for f, trs in traces_of(db, root, depth=3, inline=inl, need=(1 if root.endswith(('set_value', 'set_exception', 'operator()')) else 0)):
@@ -144,10 +149,10 @@ def _verdict(f, ret):
     return cs[-1] if cs else None
 
 
-def receivers(ctx, db):
+def receivers(ctx, db, rid='C01.claim-guards'):
     """claim-guards, interprocedural: every call of future::set / set_ref / resolve anywhere in the library has a receiver that is
     the result of claim(), the async_promise's bound future, the owner pointer read in a destructor, or this future itself"""
-    rid = ctx.rule('C01.claim-guards', 'WHO+PATHS', 'every call of future::set/set_ref/resolve has as receiver: the result of promise::claim(), '
+    rid = ctx.rule(rid, 'WHO+PATHS', 'every call of future::set/set_ref/resolve has as receiver: the result of promise::claim(), '
                    'async_promise::_future, the owner pointer inside ~promise, or the future itself (its own members); parameters are followed to all call sites', floor=5)
 
     def classify(f, e):
@@ -158,7 +163,11 @@ def receivers(ctx, db):
     def classify_value(f, o, recv, depth):
         cls = norm(f.get('class') or '')
         if recv == 'this' and cls in ('cocls::future', 'cocls::future_common'):
-            return 'self'
+            # the future storing into itself: only the set family delegating to a sibling (set -> set_ref) and the tagged constructors do that;
+            # any other member that stores a payload into *this does so without the claim and without releasing the waiters
+            if f['nname'] in SET or f.get('kind') == 'ctor' or depth > 0:
+                return 'self'
+            return 'other:this (a payload stored by the future into itself outside the set family: nobody resolves it)'
         org = value_origin(f, o) if o is not None else value_origin(f, recv)
         path = recv
         if org is not None and org.k == 'call' and norm(org.get('callee')) == CLAIM:
@@ -416,3 +425,32 @@ def has_value_agrees(ctx, db, rid='C01.has-value-agrees'):
                 if not (re.fullmatch(r'\((.*_owner(->|\.)_state) != decl:cocls::future_common::State::not_value\)', p) or re.fullmatch(r'!\(\((.*_owner(->|\.)_state) == decl:cocls::future_common::State::not_value\)\)', p)):
                     bad = bad or ('a path answers %s' % (p or '?')[:90], tr)
             ctx.ob(rid, f, f['key'], bad is None and len(trs) > 0, '%s answers _state != not_value' % name.split('::')[-1] + ('' if not bad else ' -- ' + bad[0]), desc=bad[0] if bad else None)
+
+
+PAYLOAD = ('cocls::future::_value', 'cocls::future::_exception', 'cocls::future::_ptr_value')
+
+
+def result_immutable(ctx, db):
+    """the result never changes after the resolution: the accessors only read the payload.  Moving out of a payload member (std::move(_exception),
+    std::move(_value)) inside an accessor empties it for the next reader while the state tag still says it is there"""
+    rid = ctx.rule('C01.result-immutable', 'WHO', 'future::value() (both forms), operator*, wait and the awaiters\' await_resume do not move from or assign to the payload members '
+                   '(_value, _exception, _ptr_value); only set/set_ref, the constructors and the destructor write them', floor=2)
+    n = 0; seen = set()
+    for name in ('cocls::future::value', 'cocls::future::operator*', 'cocls::future::wait', 'cocls::co_awaiter::await_resume', 'cocls::future::awaitable_bool::await_resume'):
+        for f in db.fns(name):
+            if f['key'] in seen:
+                continue
+            seen.add(f['key'])
+            bad = None
+            pay = lambda p_: bool(re.search(r'^this(->|\.)+_(value|exception|ptr_value)$', p_ or ''))      # members of the anonymous payload union
+            for e in f.events():
+                if e.k == 'call' and norm(e.get('callee') or '') in ('std::move', 'std::exchange', 'std::swap') and any(pay(a.get('path')) for a in e.get('args', [])):
+                    bad = e
+                if e.k == 'write' and pay(e.get('path')):
+                    bad = e
+                if e.k == 'call' and pay(e.get('recv')) and norm(e.get('callee') or '').endswith(('operator=', '::reset', '::swap')):
+                    bad = e
+            n += 1
+            ctx.ob(rid, f, (bad or {}).get('loc') or f['key'], bad is None, '%s only reads the payload' % name.split('::')[-1], desc='%s modifies the stored result' % name.split('::')[-1])
+    if n < 2:
+        raise Broken('future::value not instantiated')
